@@ -124,6 +124,18 @@ Theorem C17_validated_msgs_in_bounds :
 Proof. exact validated_msgs_in_bounds. Qed.
 Print Assumptions C17_validated_msgs_in_bounds.
 
+(* State-machine side of "semantically invalid input never crashes or wedges the node": block
+   parts, proposals and votes that pass ValidateBasic reach the consensus state machine, where
+   a panic halts the node for good (receiveRoutine recovers and exits).  ValidateBasic leaves
+   Part.Index (a uint32) and Vote.ValidatorIndex unbounded from above; whatever their values,
+   for every node state, every slice access addProposalBlockPart/PartSet.AddPart and
+   VoteSet.addVote make with them is inside the slice it indexes. *)
+Theorem C17_statemachine_index_in_bounds :
+  forall (st : smstate) (m : cmsg) (genuine : bool),
+    msg_index_unsigned m -> forallb acc_ok (sm_accesses st m genuine) = true.
+Proof. exact statemachine_in_bounds. Qed.
+Print Assumptions C17_statemachine_index_in_bounds.
+
 (* ------------------------------------------------------------------ non-vacuity *)
 
 Definition ex_descs : list (Z * nat * Z) := [(1, 2%nat, 64); (2, 2%nat, 64)].
@@ -197,6 +209,28 @@ Example C17_nil_buffer_drops_empty_msg :
   r_delivered (recv_item r (pk true [])) = [] /\ r_stopped (recv_item r (pk true [])) = false /\
   r_delivered (recv_items r [pk true []; pk true [9]%N]) = [(1, [9]%N)].
 Proof. vm_compute. repeat split. Qed.
+
+(* state machine: a node holding part 0 of 3 — the genuine part 2 is added (three accesses, all
+   in range), Index = Total passes ValidateBasic and is refused without any access *)
+Example C17_statemachine_nonvacuous :
+  let st := {| sm_height := 5; sm_parts := Some {| pt_total := 3; pt_have := [true; false; false] |}; sm_nvals := 4 |} in
+  validate_basic (MBlockPart 5 0 2 100 true) = true /\
+  sm_part_added st (MBlockPart 5 0 2 100 true) true = true /\
+  sm_accesses st (MBlockPart 5 0 2 100 true) true = [Acc 2 3; Acc 2 3; Acc 2 3] /\
+  validate_basic (MBlockPart 5 0 3 100 true) = true /\
+  sm_accesses st (MBlockPart 5 0 3 100 true) false = [] /\
+  sm_accesses st (MVote 1 5 0 {| bi_hashlen := 32; bi_psh := {| psh_total := 1; psh_hashlen := 32 |} |} 20 3 64) true = [Acc 3 4; Acc 3 4] /\
+  sm_accesses st (MVote 1 5 0 {| bi_hashlen := 32; bi_psh := {| psh_total := 1; psh_hashlen := 32 |} |} 20 4 64) true = [].
+Proof. vm_compute. repeat split. Qed.
+
+(* with AddPart's bound weakened to `part.Index > ps.total`, the validated message with
+   Index = Total indexes ps.parts one past its end: the panic that halts the state machine *)
+Example C17_statemachine_refuted_weak_bound :
+  let st := {| sm_height := 5; sm_parts := Some {| pt_total := 1; pt_have := [true] |}; sm_nvals := 4 |} in
+  let m := MBlockPart 5 0 1 16 true in
+  validate_basic m = true /\ msg_index_unsigned m /\
+  sm_accesses_weak st m false = [Acc 1 1] /\ forallb acc_ok (sm_accesses_weak st m false) = false.
+Proof. vm_compute. repeat split. discriminate. Qed.
 
 (* reactor guards: a maximal valid proposal / valid-block message pass and are in bounds … *)
 Definition ex_bid (total : Z) : blockid :=
